@@ -537,10 +537,9 @@ func ruleRangeHandler(c *Ctx, prefix string, want map[string]bool) {
 		if !ok || len(ret.Results) != 2 {
 			return
 		}
-		r0 := ex.Resolve(st, ret.Results[0])
 		allocErr, _ := histFact(st, "nil", regexp.MustCompile(`^`+allocRe+`#1$`)) // 1 = no error
 		found, _ := histFact(st, "bool", lookRe)
-		if isNilConst(r0) {
+		if retIsNil(ex, st, ret.Results[0]) {
 			nDrop++
 			if allocErr != 0 {
 				addb("RANGE.EXHAUST", fmt.Sprintf("request dropped at %s for a reason other than allocation failure", c.P.InstrPos(in)))
@@ -550,7 +549,7 @@ func ruleRangeHandler(c *Ctx, prefix string, want map[string]bool) {
 					addb("RANGE.EXHAUST", "after an allocation failure the handler still performs `"+l+"`: nothing may be bound or answered")
 				}
 			}
-			if k, ok := ex.Resolve(st, ret.Results[1]).(*ssa.Const); !ok || constStr(k) != "true" {
+			if retBool(ex, st, ret.Results[1]) != "true" {
 				addb("RANGE.EXHAUST", "allocation failure does not stop the chain")
 			}
 			return
